@@ -28,6 +28,8 @@ func checkC20(c *core.Ctx) {
 	c01Loop(c, rC20Semi, true)
 	clauseEvalRule(c, rC20Deleg, "naive")
 	c01DeltaRules(c, rC20Delta)
+	c.Rule("ORDABS.strata-one-at-a-time", "(*engine).evalStrata, read from source and evaluated with a recording fixpoint: like the naive evaluator it evaluates one layer at a time, in ascending order, each with its own rules, its own declarations (from which the delta rules are built) and exactly the earlier layers extensional (obligation shared with C01/C03)", 1)
+	strataOrderRule(c, "ORDABS.strata-one-at-a-time")
 	termKindCoverage(c, rC20TX, []txSpec{{"engine", "naiveEngine.oneStepEvalPremise", []string{"ast.Atom", "ast.NegAtom", "ast.Eq", "ast.Ineq"}, "a premise kind without a case yields no solutions in the naive evaluator only"}})
 }
 
